@@ -48,15 +48,15 @@ Proof. exact inline_stage_deadlock_refuted. Qed.
 Print Assumptions c11_inline_stage_deadlock_refuted.
 
 (** The schedulers run by the correspondence entry only take steps of the system. *)
-Theorem c11_run_sched_sound : forall (A : Type) (C : nat) (down : bool) (fuel : nat)
+Theorem c11_run_sched_sound : forall (A : Type) (C q : nat) (down : bool) (fuel : nat)
     (s s0 : state A) (o : outcome A),
-  reach C s0 s -> run_sched C down fuel s = o ->
+  reach C s0 s -> run_sched C q down fuel s = o ->
   match o with
   | OFinal s' => reach C s0 s' /\ final s'
   | OStuck s' => reach C s0 s'
   | OFuel s' => reach C s0 s'
   end.
-Proof. exact (fun A C down fuel => @run_sched_reach A C down fuel). Qed.
+Proof. exact (fun A C q down fuel => @run_sched_reach A C q down fuel). Qed.
 Print Assumptions c11_run_sched_sound.
 
 (** `$?` and PIPESTATUS computed by the wait loop equal bash's rule (last status; with
